@@ -27,6 +27,7 @@ pub fn generate(prop: &str, tier: &str, seed: u64, out: &str, shards: usize, his
                 crate::checks2::replay_c05(&asm, &mut mach, &mut sh, h);
             }
         }
+        "C10" | "C11" => crate::checks2::gen_shapes(&asm, &mut mach, &mut rng, &mut sh, histories.expect("shape file"), thorough),
         "C07" => crate::checks2::gen_c07(&asm, &mut mach, &mut rng, &mut sh, thorough),
         "C09" => crate::checks2::gen_c09(&asm, &mut mach, &mut rng, &mut sh, thorough),
         _ => {
@@ -120,6 +121,7 @@ pub fn rand_spelling(rng: &mut Rng) -> Spelling {
         case: if rng.chance(1, 2) { Case::Lower } else { Case::Upper },
         radix: *rng.pick(&[Radix::Dec, Radix::Dec, Radix::Hex, Radix::Bin]),
         wide: rng.chance(1, 3),
+        nl: false,
     }
 }
 
